@@ -345,7 +345,11 @@ func init() {
 	// ------------------------------------------------------------ sync
 	lock := func(in *Interp, fr *frame, args []value) value {
 		m := in.mutex(args[0].(*value))
-		in.syncOp(fr, "Lock", fr.callpos, func() bool { return !m.locked && m.readers == 0 })
+		m.writersWaiting++
+		func() {
+			defer func() { m.writersWaiting-- }()
+			in.syncOp(fr, "Lock", fr.callpos, func() bool { return !m.locked && m.readers == 0 })
+		}()
 		m.locked = true
 		m.owner = in.cur.id
 		in.hbAcquire(m)
@@ -377,7 +381,7 @@ func init() {
 	reg("(*sync.RWMutex).Unlock", unlock)
 	reg("(*sync.RWMutex).RLock", func(in *Interp, fr *frame, args []value) value {
 		m := in.mutex(args[0].(*value))
-		in.syncOp(fr, "RLock", fr.callpos, func() bool { return !m.locked })
+		in.syncOp(fr, "RLock", fr.callpos, func() bool { return !m.locked && m.writersWaiting == 0 })
 		m.readers++
 		in.hbAcquire(m)
 		return nil
